@@ -127,6 +127,7 @@ class P(Prop):
         (M, "TV.C14.track_round_trip_recorded_base", "returns without argument (through Track.base) for a base of either class: as coded, positions go forth with the base and back with the record; exact whenever the record denotes the point used (geoToEcef(b.toGeo) = b.toEcef), and then the recorded base has local coordinates (0,0,0)"),
         (M, "TV.C14.recorded_base_denotes_base_used", "that hypothesis holds for every GeoCoords base (any trig functions) and, over the reals, for an ECEFCoords base on the ellipsoid"),
         (M, "TV.C14.track_default_base", "Track.toENUCoords() without argument as coded: first observation at (0,0,0), record = its position (Geo track) / its closed-form inverse (ECEF track); returns without argument exact (ECEF track: when the inverse is exact at the first position)"),
+        ("TracklibVerif.Props.C14Num", "TV.C14.number_types_irrelevant", "a position is the same whatever Python type its numbers have: every point-level conversion (Geo/ECEF/ENU in all directions, rebasing, Lambert-93 forward) evaluated with Python's mixed arithmetic on int / bool / numpy integer / Fraction / float coordinates and bases (Model/GeoNum.lean) returns the float-only model's result on float(v); over exact arithmetic, any libm"),
         (M, "TV.C14.track_default_round_trip_survives_update", "Geo track -> toENUCoords() (base chosen by the library) -> caller updates any older object (the first position object included) -> toGeoCoords(): succeeds, positions are their Geo->ECEF->Geo images, Track.base is the first position as it was"),
     ]
     partial = [
@@ -141,6 +142,9 @@ class P(Prop):
         "implementation, valid for every longitude and base by geo_ecef_geo_residual / geo_enu_geo_residual",
         "Lambert-93 inverse then forward (XY -> Geo -> XY) within 1 mm: follows over the reals from lambert_round_trip only for XY in the image of the forward map; sampled by the transfer check",
         "IEEE rounding of every formula (theorems are over the reals): transfer only",
+        "number types in doubles: number_types_irrelevant is over exact arithmetic; in doubles Python's exact int/Fraction operations (X*X + Y*Y, X - base.X) "
+        "and the model's rounded ones differ in the last bit: correspondence on the typed cases (`ty`), 1e-7 m for Fraction cases; the whole-track and "
+        "heap-level methods on typed numbers are covered by correspondence only (they apply the point-level conversions to each position)",
         "whole-track round trip through the recorded base when the base is an ECEFCoords (explicit, or the first position of an ECEF track "
         "converted without argument) OFF the ellipsoid: proved exact when the record denotes the point used (track_round_trip_recorded_base: every "
         "GeoCoords base, an ECEFCoords base on the ellipsoid); otherwise the code returns enuToEcef(ecefToEnu(p, b), b.toGeoCoords()) (same theorem), "
@@ -154,7 +158,11 @@ class P(Prop):
                 "mutable objects: GeoCoords/ENUCoords/ECEFCoords instances with setX/setY/setZ and attribute assignment, the dynamic "
                 "dispatch obj.to{ECEF,ENU,Geo,Proj}Coords(*args) with its TypeError/AttributeError/exit branches, copy semantics of "
                 "same-class conversions, Track(obs, base=...) sharing its position and base objects, Track.getSRID() (class of the first "
-                "position), Track.to*Coords and Track.toENUCoordsIfNeeded rebinding positions and Track.base to new objects. Not modelled: _projFromUTM, "
+                "position), Track.to*Coords and Track.toENUCoordsIfNeeded rebinding positions and Track.base to new objects. Model/GeoNum.lean: the numbers held by the coordinate attributes (int, bool, numpy integer, "
+                "Fraction: exact; float) with Python's mixed arithmetic (+ - * unary minus exact between exact operands, float(x) as soon as one operand "
+                "is a float, / and every math function return floats), at which the polymorphic definitions of Model/Geo.lean are instantiated "
+                "(theorem number_types_irrelevant; the driver evaluates float(v)). Not modelled: numpy.float32 / int32 coordinates (computed at their own "
+                "width under NumPy >= 2), _projFromUTM, "
                 "the STANDARD_PROJ == 2 stereographic test branch, the state a raising whole-track conversion leaves behind, plotting.")
     trusted = ["libm sin cos tan atan atan2 sqrt log exp pow: parameters of the model (structure Trig); the driver uses Lean's Float "
                "functions (same system libm as CPython: outputs were bit-identical on every case explored), the theorems use "
